@@ -84,6 +84,14 @@ Qed.
 Lemma In_dec_str (x : string) l : {In x l} + {~ In x l}.
 Proof. apply in_dec. apply string_dec. Qed.
 
+Lemma canon_side_In' m r X x :
+  In x (canon_side (m :: r) X) <-> (In m X /\ In x (m :: r) /\ ~ In x X) \/ (~ In m X /\ In x X).
+Proof.
+  rewrite canon_side_In. destruct (smem m X) eqn:E.
+  - apply smem_In in E. tauto.
+  - assert (~ In m X) by (intro H; apply smem_In in H; congruence). tauto.
+Qed.
+
 Lemma canon_same_split L A B :
   incl A L -> incl B L ->
   (canon_side (sset L) (sset A) = canon_side (sset L) (sset B) <-> same_split L A B).
@@ -103,40 +111,27 @@ Proof.
       * apply (NL x), HA, Hx.
       * apply (NL x), HB, Hx.
   - assert (Hm : In m L) by (apply sset_In; rewrite EL; now left).
-    assert (InL : forall x, In x (m :: r) <-> In x L) by (intros x; rewrite <- EL; apply sset_In).
+    assert (C : forall X x, In x (canon_side (m :: r) (sset X)) <->
+                            (In m X /\ In x L /\ ~ In x X) \/ (~ In m X /\ In x X)).
+    { intros X x. rewrite canon_side_In', <- EL, !sset_In. tauto. }
     split.
     + intros H.
-      assert (H' : forall x, (if smem m (sset A) then In x L /\ ~ In x A else In x A) <->
-                             (if smem m (sset B) then In x L /\ ~ In x B else In x B)).
-      { intros x. specialize (H x). rewrite !canon_side_In, !sset_In, !InL in H. exact H. }
-      clear H.
-      destruct (smem m (sset A)) eqn:EA, (smem m (sset B)) eqn:EB.
-      * left. intros x Hx. specialize (H' x).
+      destruct (In_dec_str m A) as [mA|mA], (In_dec_str m B) as [mB|mB].
+      * left. intros x Hx. specialize (H x). rewrite !C in H.
         destruct (In_dec_str x A), (In_dec_str x B); tauto.
-      * right. intros x Hx. specialize (H' x).
+      * right. intros x Hx. specialize (H x). rewrite !C in H.
         destruct (In_dec_str x A), (In_dec_str x B); tauto.
-      * right. intros x Hx. specialize (H' x).
+      * right. intros x Hx. specialize (H x). rewrite !C in H.
         destruct (In_dec_str x A), (In_dec_str x B); tauto.
-      * left. intros x Hx. specialize (H' x). tauto.
-    + intros H x. rewrite !canon_side_In, !sset_In, !InL.
-      assert (MA : smem m (sset A) = true <-> In m A) by apply smem_sset.
-      assert (MB : smem m (sset B) = true <-> In m B) by apply smem_sset.
-      destruct H as [H|H].
-      * pose proof (H m Hm) as Hmm.
-        destruct (smem m (sset A)) eqn:EA, (smem m (sset B)) eqn:EB;
-          try (exfalso; destruct MA, MB; intuition congruence).
-        -- split; intros [Hx Hn]; split; auto; intro; apply Hn; apply (H x Hx); auto.
-        -- split; intros Hx; [assert (In x L) by auto | assert (In x L) by auto]; apply (H x); auto.
-      * pose proof (H m Hm) as Hmm.
-        destruct (smem m (sset A)) eqn:EA, (smem m (sset B)) eqn:EB;
-          try (exfalso; destruct MA, MB; intuition congruence).
-        -- split.
-           ++ intros [Hx Hn]. destruct (In_dec_str x B); auto. exfalso. apply Hn. apply (H x Hx). auto.
-           ++ intros Hx. assert (Hl : In x L) by auto. split; auto. intro Ha. apply (H x Hl) in Ha. contradiction.
-        -- split.
-           ++ intros Hx. assert (Hl : In x L) by auto. split; auto. apply (H x Hl). auto.
-           ++ intros [Hx Hn]. destruct (In_dec_str x A); auto. exfalso. apply Hn. intro Hb.
-              apply (H x Hx) in i. contradiction.
+      * left. intros x Hx. specialize (H x). rewrite !C in H.
+        destruct (In_dec_str x A), (In_dec_str x B); tauto.
+    + intros H x. rewrite !C.
+      destruct (In_dec_str x L) as [xL|xL].
+      * destruct H as [H|H]; pose proof (H m Hm); specialize (H x xL);
+          destruct (In_dec_str m A), (In_dec_str m B), (In_dec_str x A), (In_dec_str x B); tauto.
+      * assert (~ In x A) by (intro; apply xL; auto).
+        assert (~ In x B) by (intro; apply xL; auto).
+        tauto.
 Qed.
 
 (** * keys of a good tree *)
@@ -219,7 +214,7 @@ Lemma compare_tip_indexes_same t1 t2 :
   compare_tip_indexes (sorted_tip_names t1) (sorted_tip_names t2) = EmptyString.
 Proof.
   intros G1 G2 P. rewrite <- (same_taxa_same_ids t1 t2 G1 G2 P).
-  destruct G1 as (W & D & ND). destruct (tables_spec t W D ND) as (Pi & _ & _).
+  destruct G1 as (W & D & ND). destruct (tables_spec t1 W D ND) as (Pi & _ & _).
   unfold compare_tip_indexes.
   assert (NE : length (sorted_tip_names t1) <> 0).
   { rewrite (Permutation_length Pi). destruct (root_NI t1 W D) as [_ TN].
